@@ -30,13 +30,13 @@ def run(res, tier, seed):
                        "blocked/recursive regimes; distinct by (configuration, op, shape class, parameter)")
     engine.proof_part(res, PROOFS)
     names = [n for n, d in sorted(ops.CATALOG.items()) if d["prop"] in ALG_PROPS]
-    n = 12 if tier == "quick" else 80
+    n = 12 if tier == "quick" else 36      # thorough: 13 configurations; 36 cases per operation keep it near one hour
     vs = variants(tier)
     res.cov["configurations"] = [dict(v) for v in vs]
     for v in vs:
         runner = corr.Runner(v)
         env = {"OMP_NUM_THREADS": "4"} if v["openmp"] else None
-        engine.run_ops(res, "C12", names, seed, n, 260 if tier == "quick" else 500, runner=runner, env=env, tag="/cfg=" + v["name"])
+        engine.run_ops(res, "C12", names, seed, n, 260 if tier == "quick" else 400, runner=runner, env=env, tag="/cfg=" + v["name"])
         if v["openmp"]:
             # the parallel products exist only in this configuration; their block grid (multiples of 128 plus three
             # remainder strips) must give the product the sequential routes give
